@@ -5,6 +5,7 @@ scenario = {"property": "...", "seed": int, "world": {...}, "program": [op, ...]
 op       = {"bar": int (-1 = initialize), "phase": "initialize|before_bar|trigger|on_bar|after_bar|notify",
             "op": "<family>.<name>", "m": "<market name>" | None, "a": {symbolic args}}
 """
+import copy
 import os
 import shutil
 import tempfile
@@ -234,6 +235,10 @@ class Sim:
                 self.mdata[mw["name"]] = self.reuse.mdata.get(mw["name"])
             else:
                 market = builder(self, mw)
+                if self.scenario.get("opts", {}).get("deepcopy_markets") and mw["kind"] in ("aave", "uni", "gmx", "gmx2", "deribit"):
+                    # the market that runs is a deep copy of the one that was configured (what BacktestManager does with
+                    # its config for every run): the copy reads its own positions and status, not the original's
+                    market = copy.deepcopy(market)
             if mw["name"] in self.prebuilt:
                 market.data = self.prebuilt[mw["name"]]
             self.fed[mw["name"]] = market.data
